@@ -54,6 +54,7 @@ def gen(rng, tier, i):
     kind = wchoice(rng, KINDS)
     sc.net["chaos"] = {}
     sc.net["spawn_yield"] = rng.choice([0, 0, 300])
+    sc.net["lock_yield"] = rng.choice([0, 0, 300])   # seeded scheduling points at the asynchronous locks
     sc.cfg["ioParams"] = {"bufferSize": rng.choice([1, 16, 4096, 65536]), "useSplice": False}
     oip, oport = sc.origin_ip(), sc.port()
     by_name = rng.random() < 0.4 or kind in ("socks4a", "trunc-socks4a")
